@@ -299,11 +299,17 @@ fn run_goals(ctx: &RunCtx, report: &mut Report) {
         (vec![Layer::Multi(vec![0, 1])], 2),
         (vec![Layer::Single(0), Layer::Multi(vec![1, 2])], 3),
         (vec![Layer::Multi(vec![0, 1]), Layer::Single(2)], 3),
+        // dominance layers of three and four objectives: conflicts which split 2:1 and 3:1 exist only there
+        (vec![Layer::Multi(vec![0, 1, 2])], 3),
+        (vec![Layer::Single(0), Layer::Multi(vec![1, 2, 3])], 4),
+        (vec![Layer::Multi(vec![0, 1, 2, 3])], 4),
     ];
+    // four dimensions: a small alphabet (the table is quadratic in alphabet^dims)
+    let tiny: Vec<f64> = vec![-0.0, 0.0, 1., 2.];
     for (layers, dims) in configs {
         let single_only = layers.iter().all(|l| matches!(l, Layer::Single(_)));
         let goal = build_goal(&layers);
-        let alphabet = if dims <= 2 { full.clone() } else { reduced.clone() };
+        let alphabet = if dims <= 2 { full.clone() } else if dims == 3 { reduced.clone() } else { tiny.clone() };
         let vectors: Vec<Vec<f64>> = {
             let mut out = vec![];
             product(&vec![alphabet.len(); dims], |idx| out.push(idx.iter().map(|i| alphabet[*i]).collect()));
